@@ -390,7 +390,7 @@ func (p *sparser) primary() *SExpr {
 		return &SExpr{Kind: SStrLit, Name: t.s, Pos: t.pos}
 	case "id":
 		switch t.s {
-		case "forall", "exists":
+		case "forall", "exists", "lambda":
 			var bs []SBinder
 			for {
 				var names []string
@@ -871,7 +871,7 @@ func ParseContractFile(path, src string) (cf *ContractFile, err error) {
 func splitLabel(t string) (string, string) {
 	t = strings.TrimSpace(t)
 	i := 0
-	for i < len(t) && (t[i] == '_' || t[i] == '.' || t[i] == '-' || t[i] >= 'a' && t[i] <= 'z' || t[i] >= 'A' && t[i] <= 'Z' || t[i] >= '0' && t[i] <= '9') {
+	for i < len(t) && (t[i] == '_' || t[i] == '.' || t[i] == '-' || t[i] == '@' || t[i] >= 'a' && t[i] <= 'z' || t[i] >= 'A' && t[i] <= 'Z' || t[i] >= '0' && t[i] <= '9') {
 		i++
 	}
 	if i > 0 && i < len(t) && t[i] == ':' && !(i+1 < len(t) && (t[i+1] == ':' || t[i+1] == '=')) {
